@@ -73,7 +73,7 @@ MANIFEST = dict(
          'is open (nested entry: "not reentrant") is not covered.',
 )
 
-IMPORTS = ['SV.SM.AtomicWriter', 'SV.SM.AtomicExit', 'SV.SM.AtomicReuse', 'SV.Gen.AtomicWriter_gen', 'Coq.Lists.List', 'Coq.Bool.Bool',
+IMPORTS = ['SV.SM.AtomicWriter', 'SV.SM.AtomicExit', 'SV.SM.AtomicReuse', 'SV.SM.AtomicRetry', 'SV.Gen.AtomicWriter_gen', 'Coq.Lists.List', 'Coq.Bool.Bool',
            'Coq.Arith.PeanoNat']
 PRE = 'Import ListNotations.\n'
 
@@ -813,6 +813,8 @@ def _single_scenario(ck0: Ck, work: Path, si: int, sc: dict, do_model: bool, cas
         replace_k = next((o['k'] for o in ops0 if o['op'] == 'replace'), None)
         raise_k = next((o['k'] for o in ops0 if o['phase'] == 'exit'), len(ops0) + 1) if raising else None
 
+        seen_cases: set = set()
+
         def add_case(cut: int, faults: list[int], real_events, real_listing: dict, real_committed, what: dict,
                      cmp_tmp_content: bool, proto: str = 'aw_proto') -> None:
             if not do_model or patho:
@@ -823,12 +825,23 @@ def _single_scenario(ck0: Ck, work: Path, si: int, sc: dict, do_model: bool, cas
                     ck.obligation(name, False, what.get('why', 'operation outside the model'))
                     ck.tie_broken.append('correspondence AtomicWriter trace: ' + what.get('why', ''))
                 return
+            # a run class whose protocol the kernel found equal to the generic one: the same model case
+            m_rc = proto.removeprefix('(class_proto aw_obj ').removesuffix(')')
+            if proto != 'aw_proto' and ck.extra.get('class_same_protocol', {}).get(m_rc):
+                proto = 'aw_proto'
             # pre_ok = false: BSP.save's rebuild phase raises, the writer is never entered (save_alone in the model)
             coq = (f'corr_case_t {proto} {"false" if pre_fail else "true"} {nm.coq_init()} {scen_coq} {cut} '
                    f'{coq_list(map(str, faults))} '
                    f'{coq_list(nm.probe_names(max_tmp))}')
             if pre_fail:
                 real_committed = None       # the writer never starts: there is no outcome of a `with` to compare
+            # the same model case with the same observations of the real run (an OSError of another errno / class at the
+            # same operation, handled alike by the code and by the model) is compared once
+            dkey = (coq, repr(real_events), repr(sorted(real_listing.items())), real_committed, cmp_tmp_content)
+            if dkey in seen_cases:
+                ck.count('model_cases_single_same_as_an_earlier_one')
+                return
+            seen_cases.add(dkey)
             cases.append(dict(coq=coq, events=real_events, listing=real_listing, committed=real_committed, nm=nm,
                               replaced=any(e[0] == 4 and e[3] == 0 for e in real_events),
                               wmap=wmap, max_tmp=max_tmp, what=what, cmp_tmp=cmp_tmp_content, sc=sc))
@@ -965,7 +978,7 @@ CLASS_SCENARIOS = ('buffered', 'unbuffered', 'stale-temp', 'new-subdir', 'text',
 # not injected into raw writes: io.BufferedWriter itself retries EINTR for ever and gives EAGAIN a meaning of its own
 # (partial write), below the code under test
 NOT_AT_WRITES = ('InterruptedError', 'BlockingIOError')
-CLASS_MODEL = False
+CLASS_MODEL = True
 
 
 def coq_run_class(ck: Ck, cls: str) -> str | None:
@@ -1894,8 +1907,9 @@ def eval_cases2(ck: Ck, cases: list[dict]) -> None:
 # oracle of results, (2) transliterated by the translator and walked in the kernel with the same oracle.  The calls
 # performed, their results and how the function ends (returns / raises or lets the body's exception through) must agree.
 class _Orc:
-    def __init__(self, results: list[int]) -> None:
+    def __init__(self, results: list[int], refuse: Callable[[str], BaseException] | None = None) -> None:
         self.results, self.pos, self.log = results, 0, []
+        self.refuse = refuse or (lambda what: OSError(errno.EIO, what))     # what a refused operation raises
 
     def next(self, op: int) -> int:
         r = self.results[self.pos] if self.pos < len(self.results) else 0
@@ -1912,7 +1926,7 @@ class _MockTemp:
 
     def close(self) -> None:
         if self._orc.next(0) == 1:
-            raise OSError(errno.EIO, 'mock close')
+            raise self._orc.refuse('mock close')
 
     def __exit__(self, *a: Any) -> None:
         self.close()
@@ -1925,7 +1939,7 @@ class _MockPath:
     def replace(self, dst: Any) -> None:
         r = self._orc.next(1)
         if r == 1:
-            raise OSError(errno.EIO, 'mock replace')
+            raise self._orc.refuse('mock replace')
         if r == 2:
             raise FileNotFoundError('mock replace')
     rename = replace
@@ -1933,7 +1947,7 @@ class _MockPath:
     def unlink(self, missing_ok: bool = False) -> None:
         r = self._orc.next(2)
         if r == 1:
-            raise OSError(errno.EIO, 'mock unlink')
+            raise self._orc.refuse('mock unlink')
         if r == 2 and not missing_ok:
             raise FileNotFoundError('mock unlink')
 
@@ -1980,6 +1994,8 @@ def gen_exit_source(rng: Any) -> str:
             a = f'not ({a})'
         return a
 
+    loops = [0]
+
     def block(depth: int, ind: str, n: int) -> list[str]:
         out: list[str] = []
         for _ in range(n):
@@ -1988,6 +2004,18 @@ def gen_exit_source(rng: Any) -> str:
 
     def stmt(depth: int, ind: str) -> list[str]:
         k = rng.random()
+        if loops[0] and rng.random() < 0.22:
+            return [ind + rng.choice(['break', 'break', 'continue'])]
+        if depth < 3 and rng.random() < 0.10:
+            # for _ in range(n): ... [else: ...]   (a retry loop is one of these)
+            loops[0] += 1
+            out = [ind + f'for _ in range({rng.choice([0, 1, 2, 3])}):'] + block(depth + 1, ind + '    ', rng.choice([1, 2, 2]))
+            loops[0] -= 1
+            if rng.random() < 0.5:
+                out += [ind + 'else:'] + block(depth + 1, ind + '    ', 1)
+            return out
+        if rng.random() < 0.03:
+            return [ind + 'time.sleep(0)']
         if k < 0.30 and calls[0] < 5:
             return [ind + call()]
         if k < 0.42:
@@ -2004,7 +2032,8 @@ def gen_exit_source(rng: Any) -> str:
             nh = rng.choice([0, 1, 1, 2])
             fin = rng.random() < 0.55 or nh == 0
             classes = rng.sample(['OSError', 'FileNotFoundError', 'Exception', '(FileNotFoundError, KeyError)', 'KeyError',
-                                  'BaseException', 'IOError'], nh)
+                                  'BaseException', 'IOError', 'PermissionError', 'PermissionError', 'IsADirectoryError',
+                                  '(PermissionError, FileExistsError)', 'KeyboardInterrupt'], nh)
             if nh and rng.random() < 0.2:
                 classes[-1] = ''
             for c in classes:
@@ -2148,6 +2177,75 @@ CORPUS_EXIT = [
         self.temp.close()
         self._temp_name.unlink()
 """,
+    # round 4: a bounded retry of the rename on PermissionError, with else: raise (good) ...
+    """def __exit__(self, exc_type, exc_value, tback):
+    temp, self.temp = self.temp, None
+    committed = False
+    try:
+        if temp is not None:
+            temp.__exit__(exc_type, exc_value, tback)
+        if exc_type is None:
+            for _ in range(3):
+                try:
+                    self._temp_name.replace(self.filename)
+                    break
+                except PermissionError:
+                    time.sleep(0)
+            else:
+                raise RuntimeError()
+            committed = True
+    finally:
+        if not committed and self._temp_name is not None:
+            try:
+                self._temp_name.unlink()
+            except FileNotFoundError:
+                pass
+""",
+    # ... and without the else clause (the shape of seeded c12_6): falls out of the loop as if it had succeeded
+    """def __exit__(self, exc_type, exc_value, tback):
+    temp, self.temp = self.temp, None
+    committed = False
+    try:
+        if temp is not None:
+            temp.__exit__(exc_type, exc_value, tback)
+        if exc_type is None:
+            for _ in range(3):
+                try:
+                    self._temp_name.replace(self.filename)
+                    break
+                except PermissionError:
+                    time.sleep(0)
+            committed = True
+    finally:
+        if not committed and self._temp_name is not None:
+            try:
+                self._temp_name.unlink()
+            except FileNotFoundError:
+                pass
+""",
+    # break / continue through a finally; the else clause of a loop that was left by break is skipped
+    """def __exit__(self, exc_type, exc_value, tback):
+    for _ in range(2):
+        try:
+            self._temp_name.unlink()
+            continue
+        except OSError:
+            break
+        finally:
+            self.temp.close()
+    else:
+        self._temp_name.replace(self.filename)
+""",
+    # a handler naming KeyboardInterrupt, one naming Exception: which of them sees a refused operation depends on the class
+    """def __exit__(self, exc_type, exc_value, tback):
+    try:
+        self.temp.close()
+    except KeyboardInterrupt:
+        self._temp_name.unlink()
+        raise
+    except Exception:
+        self._temp_name.replace(self.filename)
+""",
 ]
 
 
@@ -2170,14 +2268,26 @@ def interp_correspondence(ck: Ck) -> None:
         progs.append((src, term))
     oracles = [[], [1] * 6, [2] * 6, [0, 1], [0, 2], [0, 0, 1], [1, 0, 2]] + \
               [[ck.rng.choice([0, 0, 1, 2]) for _ in range(6)] for _ in range(3)]
+    # run classes: what result 1 (refused) makes the mocks raise, and the program specialised to that class in the kernel
+    table = c12_atomic.SUBCLASSES
+    runs: list[tuple[str, Callable[[str], BaseException] | None, list[list[int]]]] = [('RGeneric', None, oracles)]
+    few = [[1] * 6, [0, 1, 1, 0, 1, 2]]
+    for cname in ('PermissionError', 'IsADirectoryError'):
+        runs.append((f'(RSub {table.index(cname)})', (lambda what, c=getattr(builtins, cname): c(errno.EACCES, what)), few))
+    runs.append(('RKbd', lambda what: KeyboardInterrupt(), few))
+
+    def runs_of(src: str) -> list:
+        """A named subclass is only interesting for a program one of whose handlers names it (otherwise it is caught
+        exactly like the generic OSError); KeyboardInterrupt differs for every handler of OSError / Exception."""
+        return [r for r in runs if not r[0].startswith('(RSub') or table[int(r[0][6:-1])] in src]
     bad: list[dict] = []
     n = 0
     for lo in range(0, len(progs), 60):
         part = progs[lo:lo + 60]
         exprs = []
         for _src, term in part:
-            walks = '; '.join(f'walk (exit_tree p {"true" if exc else "false"}) {coq_list(map(str, o))}'
-                              for exc in (False, True) for o in oracles)
+            walks = '; '.join(f'walk (exit_tree (spec_stmt {rc} p) {"true" if exc else "false"}) {coq_list(map(str, o))}'
+                              for rc, _mk, orcs in runs_of(_src) for exc in (False, True) for o in orcs)
             exprs.append(f'let p := {term} in [{walks}]')
         vals = ck.coq_eval(IMPORTS, [coq_list(exprs)], name='aw_interp', preamble=PRE)
         if vals is None:
@@ -2186,14 +2296,16 @@ def interp_correspondence(ck: Ck) -> None:
             return
         res = parse_coq_nested(vals[0])
         for (src, _term), rows in zip(part, res):
-            ns: dict[str, Any] = {'os': _MockOs, 'suppress': contextlib.suppress, 'contextlib': contextlib}
+            import time as _time_mod
+            ns: dict[str, Any] = {'os': _MockOs, 'suppress': contextlib.suppress, 'contextlib': contextlib, 'time': _time_mod}
             exec(compile(src, '<generated __exit__>', 'exec'), ns)
             fn = ns['__exit__']
             it = iter(rows)
-            for exc in (False, True):
-                for o in oracles:
+            for rc, mk, orcs in runs_of(src):
+              for exc in (False, True):
+                for o in orcs:
                     log_m, fin_m = next(it)
-                    orc = _Orc(list(o))
+                    orc = _Orc(list(o), mk)
                     obj = type('W', (), {})()
                     obj.temp, obj._temp_name, obj.filename = _MockTemp(orc), _MockPath(orc), object()
                     ei = (ValueError, ValueError('body'), None) if exc else (None, None, None)
@@ -2213,9 +2325,10 @@ def interp_correspondence(ck: Ck) -> None:
                     else:
                         ok = (log_m, fin_m) == (orc.log, fin_r)
                     if len(orc.log) >= 1:
-                        ck.seen(('interp', hash(src) & 0xffffffff, exc, tuple(o)))
+                        ck.seen(('interp', hash(src) & 0xffffffff, rc, exc, tuple(o)))
+                    ck.hist('interp_run_class', rc)
                     if not ok:
-                        bad.append({'source': src, 'body_raised': exc, 'oracle': o, 'model': [log_m, fin_m],
+                        bad.append({'source': src, 'run_class': rc, 'body_raised': exc, 'oracle': o, 'model': [log_m, fin_m],
                                     'cpython': [orc.log, fin_r]})
     ck.extra['interpreter_programs'] = {'compared': len(progs), 'rejected_by_translator': rejected}
     ck.obligation('correspondence:exit-interpreter', not bad,
@@ -2228,6 +2341,40 @@ def interp_correspondence(ck: Ck) -> None:
                      f'model {bad[0]["model"]} vs CPython {bad[0]["cpython"]} (body_raised={bad[0]["body_raised"]}, '
                      f'oracle={bad[0]["oracle"]}) on\n{bad[0]["source"]}', bad[0])
         ck.explain('correspondence:exit-interpreter')
+
+
+class _TheoremsInBackground:
+    """ck.theorems (Print Assumptions of every theorem of Props/C12.v: one coqc process, 8-20 s on a loaded machine) runs
+    in a thread while the instance obligations and the interpreter correspondence are evaluated; its obligations are
+    merged into ck, in order, at join() — which is called before the first campaign that forks."""
+
+    def __init__(self, ck: Ck, props: str) -> None:
+        self.ck, self.obligations, self.axioms, self.tie_broken = ck, [], {}, []
+        self.err: BaseException | None = None
+        self.thread = threading.Thread(target=self._run, args=(props,), daemon=True)
+        self.thread.start()
+
+    # the part of the Ck interface that Ck.theorems uses
+    def coq_scratch(self, body: str, name: str = 'scratch', timeout: int = 600) -> tuple[int, str]:
+        return self.ck.coq_scratch(body, name, timeout)
+
+    def obligation(self, name: str, ok: bool, detail: str = '') -> None:
+        self.obligations.append((name, ok, detail))
+
+    def _run(self, props: str) -> None:
+        try:
+            Ck.theorems(self, props)          # type: ignore[arg-type]
+        except BaseException as e:            # reported at join()
+            self.err = e
+
+    def join(self) -> None:
+        self.thread.join()
+        if self.err is not None:
+            self.ck.obligation('assumptions:Props/C12.v', False, f'Print Assumptions could not be run: {self.err!r}')
+        for name, ok, detail in self.obligations:
+            self.ck.obligation(name, ok, detail)
+        self.ck.axioms.update(self.axioms)
+        self.ck.tie_broken.extend(self.tie_broken)
 
 
 # =============================================================================================== main
@@ -2273,37 +2420,55 @@ def run(ck: Ck) -> None:
     ok_t = ck.translate('AtomicWriter_gen', c12_atomic.translate)
     side = ck.extra.get('translated', {}).get('AtomicWriter_gen', {})
     built = ok_t and ck.build(['Props/C12.vo', 'Gen/AtomicWriter_gen.vo'])
+    background = None
     if built:
-        ck.theorems('Props/C12.v')
-        ok2, fl2 = 'x_ok aw_proto', 'x_exc aw_proto'
+        background = _TheoremsInBackground(ck, 'Props/C12.v')
+        # which run classes have the exit protocol of the generic class (all of them unless a handler names a subclass of
+        # OSError or KeyboardInterrupt): their model cases are the generic ones (see add_case)
+        same = ck.coq_eval(IMPORTS, ['map (fun r => proto_eqb (class_proto aw_obj r) aw_proto) (run_classes aw_nclasses)'],
+                           name='aw_classes', preamble=PRE)
+        flags = [x.strip() == 'true' for x in same[0].strip('[] \n').split(';')] if same else []
+        nsub = len(side.get('subclasses') or [])
+        names_rc = ['RGeneric', 'RKbd'] + [f'(RSub {i})' for i in range(nsub)]
+        ck.extra['class_same_protocol'] = dict(zip(names_rc, flags)) if len(flags) == len(names_rc) else {}
+        # Every obligation is stated for EVERY run class (what a refused operation raises: an OSError that is no named
+        # subclass, each named subclass of the translator's table, KeyboardInterrupt): `allc P` = P holds for the object
+        # with its __exit__ specialised to each class.  Family membership and the flags are judged on the COLLAPSED
+        # protocol (a refused rename / unlink that is tried again is a stutter step: c12_retry_*), the order / exception
+        # flow predicates on the trees as they are.
+        def allc(body: str) -> str:
+            return (f'all_classes aw_nclasses aw_obj (fun o => let x := obj_proto o in let cx := collapse_proto x in '
+                    f'let cf := derive_cfg cx in {body})')
+        ok2, fl2 = 'x_ok x', 'x_exc x'
         ck.instance_obligations(IMPORTS, {
-            # hypotheses of the theorems in Props/C12.v, for the protocol generated from today's source
-            'proto_ok': 'proto_ok aw_proto',
-            'proto_safe': 'proto_safe aw_proto',
-            'exit_protocol_in_model_family': 'in_family aw_proto',
+            # hypotheses of c12_property / c12_retry_* / c12_protocol_* / c12_reuse_*, for today's object
+            'proto_ok': allc('proto_ok cx'),
+            'proto_safe': allc('proto_safe cx'),
+            'exit_protocol_in_model_family': allc('in_family cx'),
+            'exit_returns_normally_iff_renamed': allc('proto_outcome_ok x'),
             # the same, flag by flag (flags are computed in the kernel from the decision trees of the program)
-            'temp_opened_exclusively_with_retry': 'c_excl aw_cfg',
-            'body_exception_discards_temp': 'is_discard (c_on_exc aw_cfg)',
-            'success_commits_by_replace': 'is_commit (c_on_ok aw_cfg)',
-            'failing_close_still_unlinks_temp': 'c_close_guard aw_cfg',
-            'failing_replace_still_unlinks_temp': 'c_replace_guard aw_cfg',
-            'cfg_ok': 'cfg_ok aw_cfg',
+            'temp_opened_exclusively_with_retry': allc('c_excl cf'),
+            'body_exception_discards_temp': allc('is_discard (c_on_exc cf)'),
+            'success_commits_by_replace': allc('is_commit (c_on_ok cf)'),
+            'failing_close_still_unlinks_temp': allc('c_close_guard cf'),
+            'failing_replace_still_unlinks_temp': allc('c_replace_guard cf'),
+            'cfg_ok': allc('cfg_ok cf'),
             # order of operations / exception flow, judged on the decision trees directly (independent of the family)
-            'exit_no_unmodelled_step': f'no_bad ({ok2}) && no_bad ({fl2})',
-            'temp_closed_before_replace': f'closes_first ({ok2}) && closes_first ({fl2})',
-            'exit_closes_temp_once': f'no_close (close_ok ({ok2})) && no_close (close_fl ({ok2})) && '
-                                     f'no_close (close_ok ({fl2})) && no_close (close_fl ({fl2}))',
-            'exit_failing_close_never_renames': f'no_replace (close_fl ({ok2})) && no_replace (close_fl ({fl2}))',
-            'exit_body_exception_never_renames': f'no_replace ({fl2})',
-            'exit_success_renames_after_close': f'success_commits ({ok2})',
-            'exit_every_failure_path_unlinks_temp': f'cleans ({ok2}) false && cleans ({fl2}) false',
-            'exit_never_swallows_an_exception': f'propagates ({ok2}) false && propagates ({fl2}) true',
-            'exit_success_returns_normally': f'ok_path_returns ({ok2})',
-            'exit_without_enter_does_nothing': 'unentered_exit_is_inert aw_obj',
+            'exit_no_unmodelled_step': allc(f'no_bad ({ok2}) && no_bad ({fl2})'),
+            'temp_closed_before_replace': allc(f'closes_first ({ok2}) && closes_first ({fl2})'),
+            'exit_closes_temp_once': allc(f'no_close (close_ok ({ok2})) && no_close (close_fl ({ok2})) && '
+                                          f'no_close (close_ok ({fl2})) && no_close (close_fl ({fl2}))'),
+            'exit_failing_close_never_renames': allc(f'no_replace (close_fl ({ok2})) && no_replace (close_fl ({fl2}))'),
+            'exit_body_exception_never_renames': allc(f'no_replace ({fl2})'),
+            'exit_success_renames_after_close': allc(f'success_commits ({ok2})'),
+            'exit_every_failure_path_unlinks_temp': allc(f'cleans ({ok2}) false && cleans ({fl2}) false'),
+            'exit_never_swallows_an_exception': allc(f'propagates ({ok2}) false && propagates ({fl2}) true'),
+            'exit_success_returns_normally': allc(f'ok_path_returns ({ok2})'),
+            'exit_without_enter_does_nothing': allc('unentered_exit_is_inert o'),
             # one object, several `with` blocks (c12_reuse_* speak about an object with reuse_indep = true): whatever
             # the earlier uses left in the instance attributes, the next use runs the protocol of a fresh object
-            'reuse_exit_protocol_independent_of_earlier_uses': 'reuse_indep aw_obj',
-            'reuse_exit_always_clears_the_temp_handle': 'exit_always_leaves aw_obj 0 VNone',
+            'reuse_exit_protocol_independent_of_earlier_uses': allc('reuse_indep o'),
+            'reuse_exit_always_clears_the_temp_handle': allc('exit_always_leaves o 0 VNone'),
             'reuse_fresh_object_is_unentered': 'init_unentered aw_obj',
             'reuse_enter_binds_handle_and_temp_name': 'enter_binds aw_obj',
             'temp_is_sibling_of_destination': 'aw_tmp_sibling',
@@ -2328,12 +2493,14 @@ def run(ck: Ck) -> None:
     (ck.scratch / 'cwd').mkdir(exist_ok=True)
     os.chdir(ck.scratch / 'cwd')       # relative temp names would land here, where they are noticed
     try:
-        _campaigns(ck, built)
+        _campaigns(ck, built, background)
     finally:
         os.chdir(cwd0)
+        if background is not None:
+            background.join()
 
 
-def _campaigns(ck: Ck, built: bool) -> None:
+def _campaigns(ck: Ck, built: bool, background: '_TheoremsInBackground | None' = None) -> None:
     import time
     stage: dict[str, float] = {}
     ck.extra['stage_seconds'] = stage
@@ -2342,6 +2509,11 @@ def _campaigns(ck: Ck, built: bool) -> None:
     if built:
         interp_correspondence(ck)
     stage['interpreter'] = round(time.time() - t1, 1)
+    t1 = time.time()
+    if background is not None:
+        background.join()           # before anything forks
+        background.join = lambda: None      # type: ignore[method-assign]
+    stage['wait-for-print-assumptions'] = round(time.time() - t1, 1)
     t1 = time.time()
     scs = scenarios(ck)
     single_campaign(ck, scs, bool(built))
